@@ -66,7 +66,7 @@ type lifeWorld struct {
 	extras []*PeerActor
 	// open-error fault aimed at an allocation that follows a deletion (see OnOpen)
 	openErrArmed, armedStart, sawMissing bool
-	seed   *PeerActor
+	seed                                 *PeerActor
 
 	mu             sync.Mutex
 	tainted        map[int]bool // pieces whose content was silently changed since the last verification
